@@ -62,7 +62,7 @@ Inductive xval (F : Type) : Type :=
 Arguments Fin {F} x. Arguments NegZero {F}. Arguments PInf {F}.
 Arguments NInf {F}. Arguments NaN {F}.
 
-Inductive verr : Type := ErrNone | ErrPositive | ErrFinite | ErrMap.
+Inductive verr : Type := ErrNone | ErrPositive | ErrFinite | ErrMap | ErrType.
 Inductive pname : Type := PX | PY | PZ | PMu | PEps.
 Definition is_property (p : pname) : bool :=
   match p with PX | PY | PZ => true | _ => false end.
@@ -186,6 +186,19 @@ Section Validation.
     | None => inl (set_prop md p (Some values))
     end.
 
+  (* augmented assignment  model.<p> op= k  (op in *, +, -, /):  Python reads the
+     stored array, numpy updates it IN PLACE to [values] (= op(stored, k)), then the
+     setter is called with that very array.  Hence the storage holds [values]
+     whether or not the check passes; the check is the one of plain assignment.
+     On a None property the operator itself raises TypeError before the setter. *)
+  Definition model_aug (md : model) (p : pname) (values : list (xval F))
+    : model * option verr :=
+    match get_prop md p with
+    | None => (md, Some ErrType)
+    | Some _ => (set_prop md p (Some values),
+                 check_pf (m_map md) (Some (get_prop md p)) p values)
+    end.
+
   (* anisotropy case: 0 isotropic, 1 HTI, 2 VTI, 3 triaxial *)
   Definition case_of (md : model) : Z :=
     match m_y md, m_z md with
@@ -258,16 +271,22 @@ Definition model_init_Q := @model_init Q Qpos0 Qisz (@bw_exec Q QOps) ovf_exec 0
 Definition model_set_Q := @model_set Q Qpos0 Qisz (@bw_exec Q QOps) ovf_exec 0%Q.
 
 (* harness helpers for the correspondence (run a history of assignments) *)
-Definition run_sets (md : model (F:=Q)) (ops : list (pname * list (xval Q)))
+Definition model_aug_Q := @model_aug Q Qpos0 Qisz (@bw_exec Q QOps) ovf_exec 0%Q.
+(* an op is (augmented?, property, values) *)
+Definition run_sets (md : model (F:=Q)) (ops : list (bool * pname * list (xval Q)))
   : list (option verr) * model (F:=Q) :=
-  fold_left (fun acc op =>
-               match model_set_Q (snd acc) (fst op) (snd op) with
-               | inl md' => (fst acc ++ [None], md')
-               | inr e => (fst acc ++ [Some e], snd acc)
-               end) ops ([], md).
+  fold_left (fun (acc : list (option verr) * model (F:=Q))
+                 (op : bool * pname * list (xval Q)) =>
+               if fst (fst op)
+               then let r := model_aug_Q (snd acc) (snd (fst op)) (snd op) in
+                    (fst acc ++ [snd r], fst r)
+               else match model_set_Q (snd acc) (snd (fst op)) (snd op) with
+                    | inl md' => (fst acc ++ [None], md')
+                    | inr e => (fst acc ++ [Some e], snd acc)
+                    end) ops ([], md).
 Definition verr_code (e : option verr) : Z :=
   match e with None => 0 | Some ErrNone => 1 | Some ErrPositive => 2
-          | Some ErrFinite => 3 | Some ErrMap => 4 end%Z.
+          | Some ErrFinite => 3 | Some ErrMap => 4 | Some ErrType => 5 end%Z.
 Definition xval_code (v : xval Q) : Z * Z * Z :=
   match v with
   | Fin q => (0, Qnum (Qred q), Zpos (Qden (Qred q)))
@@ -280,7 +299,7 @@ Definition model_code (md : model (F:=Q)) :=
                 prop_code (m_mu md); prop_code (m_eps md)]).
 (* whole history: construct, then assign; codes of every step and final state *)
 Definition run_history (mapping : string) (x y z mu eps : option (list (xval Q)))
-           (ops : list (pname * list (xval Q))) :=
+           (ops : list (bool * pname * list (xval Q))) :=
   match model_init_Q mapping x y z mu eps with
   | inr e => (verr_code (Some e), [], (0%Z, []))
   | inl md => let r := run_sets md ops in
